@@ -207,6 +207,11 @@ func runClient(s *kernel.Sim, c *scen.Case, p params) {
 			existedBefore = true // e.g. the base directory itself, or "/"
 		}
 	}
+	if !existedBefore && strings.HasPrefix(pc.path, "/tmp/FS_") && !strings.Contains(pc.path[len("/tmp/"):], "/") {
+		// whatever a broken client leaves at the exact path it was given goes away with the case (a
+		// mutated path no longer carries the whole token, so the token sweep would not find it)
+		defer os.RemoveAll(pc.path)
+	}
 	ctx, cancel := context.WithCancel(context.Background())
 	defer cancel()
 	net := simnet.New(s, simnet.Config{MaxLatency: 10 * time.Millisecond, ShortReads: t.Choose("short", 2) == 1})
